@@ -716,7 +716,7 @@ def r06f(ctx, classes):
         if bad:
             for st, t in bad:
                 ctx.bad("R06f", f"{ci.qual}.{st.name}", "memoised through lazy_property only", f"@{t}: a cache that assigning an attribute never clears",
-                        key_detail="foreign cache", loc=ctx.loc(ci.module, st))
+                        key_detail="foreign cache", loc=ctx.loc(ci.module, st), pointed=True)      # read off the decorator alone
         else:
             ctx.ok("R06f", ci.qual, "memoised through lazy_property only")
 
